@@ -569,9 +569,9 @@ pub fn gen(out: &mut dyn std::io::Write, thorough: bool, seed: u64) {
             writeln!(out, "KYX {} {k} c17", hex(&bytes)).unwrap();
         }
     }
-    let n_models = if thorough { 1500 } else { 40 };
+    let n_models = if thorough { 250 } else { 40 };
     let chars = ['a', 'b', 'あ', '漢', 'カ', '1', 'D', 'R', 'H', 'T', 'K', 'O', '\u{4}'];
-    for _ in 0..n_models {
+    for mi in 0..n_models {
         let mut k = AbsKytea {
             char_w: r.range(1, 3) as u8,
             char_n: 3,
@@ -634,7 +634,8 @@ pub fn gen(out: &mut dyn std::io::Write, thorough: bool, seed: u64) {
                 Err(_) => "-".to_string(),
             };
             writeln!(out, "KYX {} full {exp} c17", hex(&bytes)).unwrap();
-            let step = if thorough { 1 } else { (bytes.len() / 40).max(1) };
+            // every truncation point for the first 60 models of the thorough tier, a sample otherwise (each line carries the file)
+            let step = if thorough && mi < 60 { 1 } else { (bytes.len() / 40).max(1) };
             for cut in (0..bytes.len()).step_by(step) {
                 writeln!(out, "KYX {} {cut} c17", hex(&bytes)).unwrap();
             }
